@@ -550,7 +550,8 @@ def read_pkt_refs_v1(
 
     if len(refs) == 0:
         return {}, set()
-    if refs == {CAPABILITIES_REF: ZERO_SHA}:
+    if set(refs) == {CAPABILITIES_REF} and not refs[CAPABILITIES_REF].strip(b"0"):
+        # the placeholder of an empty repository (40 or 64 zeros)
         refs = {}
     assert server_capabilities is not None
     return refs, set(server_capabilities)
